@@ -128,6 +128,8 @@ def run_tier(prop, tier):
     cfg = eng.tier_config(tier)
     if os.environ.get("VERIF_RUNS"):
         cfg["runs"] = int(os.environ["VERIF_RUNS"])
+    if os.environ.get("VERIF_DET_PLANS"):
+        cfg["determinism_plans"] = int(os.environ["VERIF_DET_PLANS"])
     workers = int(os.environ.get("VERIF_WORKERS", min(16, os.cpu_count() or 1)))
     opts = eng.prepare_opts(cfg.get("opts", {}))
     print("VERIF_SEED=%d property=%s tier=%s runs=%d (+%d enumerated families) workers=%d "
